@@ -39,13 +39,14 @@ type responder struct {
 	seen   int
 	policy map[string]string // "open": accept refuse silent; "data": ack silent; "close": ack silent; "join"/"leave": confirm error silent
 	sid    string            // sid of the library-opened stream (from its <open/>)
+	lastID map[string]string // id of the library's last join / leave presence
 	trace  []string
 	stop   chan struct{}
 	done   chan struct{}
 }
 
 func newResponder(sv *wire.Served, ns string) *responder {
-	r := &responder{sv: sv, ns: ns, policy: map[string]string{}, stop: make(chan struct{}), done: make(chan struct{})}
+	r := &responder{sv: sv, ns: ns, policy: map[string]string{}, lastID: map[string]string{}, stop: make(chan struct{}), done: make(chan struct{})}
 	go r.loop()
 	return r
 }
@@ -119,6 +120,17 @@ func (r *responder) react(e *xt.Node) {
 		case "silent":
 		case "refuse", "error":
 			r.sv.Feed(`<iq xmlns="` + r.ns + `" type="error" id="` + id + `"><error type="cancel"><not-acceptable xmlns="urn:ietf:params:xml:ns:xmpp-stanzas"/></error></iq>`)
+		case "cross":
+			// both ends close at the same time: the peer's own <close/> for the
+			// stream arrives before its answer to ours
+			sid := ""
+			for _, c := range e.Children {
+				if !c.IsText() && c.Name.Local == "close" {
+					sid, _ = c.Get("sid")
+				}
+			}
+			r.sv.Feed(`<iq xmlns="` + r.ns + `" type="set" id="x` + id + `" from="peer@example.org/r" to="test@example.net"><close xmlns="http://jabber.org/protocol/ibb" sid="` + sid + `"/></iq>` +
+				`<iq xmlns="` + r.ns + `" type="result" id="` + id + `"/>`)
 		default:
 			r.sv.Feed(`<iq xmlns="` + r.ns + `" type="result" id="` + id + `"/>`)
 		}
@@ -129,6 +141,9 @@ func (r *responder) react(e *xt.Node) {
 			what = "leave"
 		}
 		pol := r.get(what)
+		r.mu.Lock()
+		r.lastID[what] = id
+		r.mu.Unlock()
 		r.note("library sent %s presence to %s id=%s: peer policy %q", what, to, id, pol)
 		switch pol {
 		case "silent":
@@ -182,6 +197,9 @@ func genHelpers(t *rapid.T) hcase {
 			st.n = rapid.SampledFrom([]int{0, 1, 2, 3, 4, 5, 7, 10, 64}).Draw(t, "n")
 			st.flag = rapid.Bool().Draw(t, "flag")
 			st.pol = rapid.SampledFrom([]string{"ack", "ack", "ack", "silent", "error"}).Draw(t, "pol")
+			if st.op == "close" && rapid.IntRange(0, 2).Draw(t, "crossingClose") == 0 {
+				st.pol = "cross"
+			}
 			c.steps = append(c.steps, st)
 		}
 		return c
@@ -190,6 +208,10 @@ func genHelpers(t *rapid.T) hcase {
 		st := hstep{op: rapid.SampledFrom([]string{"join", "join", "leave", "rejoin"}).Draw(t, "op")}
 		st.pol = rapid.SampledFrom([]string{"confirm", "confirm", "confirm", "error", "silent"}).Draw(t, "pol")
 		st.flag = rapid.Bool().Draw(t, "flag")
+		// n: what the room sends after the call has returned, while the call's
+		// context is still alive (flag): 0 nothing, 1 a late error reply with the
+		// request's id, 2 a duplicate of the confirmation
+		st.n = rapid.IntRange(0, 2).Draw(t, "late")
 		c.steps = append(c.steps, st)
 	}
 	return c
@@ -517,7 +539,29 @@ func checkHelpers(t interface {
 					return
 				}
 			}
-			cancel()
+			if !st.flag || st.pol == "silent" {
+				cancel()
+			} else {
+				defer cancel() // the application keeps the context alive
+			}
+			if st.n > 0 && st.pol != "silent" {
+				which := "join"
+				typ := ""
+				if st.op == "leave" {
+					which, typ = "leave", ` type="unavailable"`
+				}
+				rsp.mu.Lock()
+				lid := rsp.lastID[which]
+				rsp.mu.Unlock()
+				if lid != "" {
+					if st.n == 1 {
+						sv.Feed(`<presence xmlns="` + ns + `" type="error" id="` + lid + `" from="` + room.String() + `"><x xmlns="http://jabber.org/protocol/muc"/><error type="cancel"><service-unavailable xmlns="urn:ietf:params:xml:ns:xmpp-stanzas"/></error></presence>`)
+					} else {
+						sv.Feed(`<presence xmlns="` + ns + `"` + typ + ` id="` + lid + `" from="` + room.String() + `"><x xmlns="http://jabber.org/protocol/muc#user"><item affiliation="member" role="participant"/><status code="110"/></x></presence>`)
+					}
+					logf("%s: the room then sent a late reply (kind %d) with the id of that request", what, st.n)
+				}
+			}
 			if !sentinel(what) {
 				return
 			}
